@@ -234,7 +234,9 @@ def run_unit(unit_mod, prop, repo, verif, workdir, tier, log):
         owner = fn_map(text)
         fails = [name_failure(unit_mod, d, org, owner) for d in res.diags]
         hint_fails = [f for f in fails if f.cls == "hint"]
-        if hint_fails and attempts <= 6 and not res.tool_errors:
+        # a contract-level failure reported next to a failed hint is checked under the *assumption* of the
+        # hint, so it is genuine; only when hints alone fail is the unit re-run without them
+        if hint_fails and attempts <= 6 and not res.tool_errors and not any(f.cls == "contract" for f in fails):
             for f in hint_fails:
                 disabled.add(f.clause)
                 dropped_hints.append(f.name)
